@@ -27,7 +27,10 @@ func init() {
 
 // ---------------------------------------------------------------- descriptors
 
-// vote:     s,h,r,t,kind,nid,blk,ps,ts   (kind n = nil vote: blk = ps = 0; b = block vote)
+// vote:     s,h,r,t,kind,nid,blk,ps,ts,u (kind n = nil vote: blk = ps = 0; b = block vote; u = unsigned part:
+//
+//	0 none, k>0 one NTS vote base with section hash k; a block vote with u>0 signs NTS vote count 1)
+//
 // proposal: s,h,r,nid,ps,pol
 type c06Vote struct {
 	s, h, r, t int
@@ -35,6 +38,7 @@ type c06Vote struct {
 	nid        int
 	blk, ps    int
 	ts         int
+	u          int // unsigned part: 0 none, k>0 one NTS vote base with section hash k (+ proof part)
 }
 
 func (v c06Vote) String() string {
@@ -42,7 +46,7 @@ func (v c06Vote) String() string {
 	if v.nilVote {
 		k = "n"
 	}
-	return fmt.Sprintf("%d,%d,%d,%d,%s,%d,%d,%d,%d", v.s, v.h, v.r, v.t, k, v.nid, v.blk, v.ps, v.ts)
+	return fmt.Sprintf("%d,%d,%d,%d,%s,%d,%d,%d,%d,%d", v.s, v.h, v.r, v.t, k, v.nid, v.blk, v.ps, v.ts, v.u)
 }
 
 type c06Prop struct{ s, h, r, nid, ps, pol int }
@@ -68,14 +72,14 @@ func c06ParseInts(parts []string, skip int) ([]int, bool) {
 
 func c06ParseVote(s string) (c06Vote, bool) {
 	parts := strings.Split(s, ",")
-	if len(parts) != 9 || (parts[4] != "n" && parts[4] != "b") {
+	if len(parts) != 10 || (parts[4] != "n" && parts[4] != "b") {
 		return c06Vote{}, false
 	}
 	a, ok := c06ParseInts(parts, 4)
-	if !ok || a[0] < 0 || a[0] > 40 || a[3] < 0 || a[3] > 255 || a[5] < 0 || a[5] > 0x7fffffff || a[6] < 0 || a[7] < 0 {
+	if !ok || a[0] < 0 || a[0] > 40 || a[3] < 0 || a[3] > 255 || a[5] < 0 || a[5] > 0x7fffffff || a[6] < 0 || a[7] < 0 || a[9] < 0 {
 		return c06Vote{}, false
 	}
-	v := c06Vote{s: a[0], h: a[1], r: a[2], t: a[3], nilVote: parts[4] == "n", nid: a[5], blk: a[6], ps: a[7], ts: a[8]}
+	v := c06Vote{s: a[0], h: a[1], r: a[2], t: a[3], nilVote: parts[4] == "n", nid: a[5], blk: a[6], ps: a[7], ts: a[8], u: a[9]}
 	if v.nilVote && (v.blk != 0 || v.ps != 0) {
 		return c06Vote{}, false
 	}
@@ -102,13 +106,25 @@ func c06GenVote(g *Gen) c06Vote {
 		v.nilVote = true
 	} else {
 		v.blk, v.ps = g.Intn(3), g.Intn(3)
+		if g.Intn(3) == 0 { // a precommit carrying an NTS vote
+			v.t = 1
+			v.u = 1 + g.Intn(2)
+		}
 	}
 	return v
 }
 
 func c06MutVote(g *Gen, v c06Vote) c06Vote {
 	for k := g.Pick(0, 1, 1, 1, 2, 2, 3); k > 0; k-- {
-		switch g.Intn(9) {
+		switch g.Intn(10) {
+		case 9: // only the unsigned part changes (another NTS section hash): same signed contents, same signature
+			if v.u > 0 {
+				v.u = 1 + v.u%3
+			} else if v.nilVote {
+				v.u = 1 + g.Intn(2)
+			} else {
+				v.ts += g.Pick(-1, 1)
+			}
 		case 0:
 			v.s = (v.s + 1 + g.Intn(2)) % 3
 		case 1:
@@ -169,8 +185,35 @@ func c06Gen(g *Gen) {
 	for i := 0; i < g.N; i++ {
 		g.Emit("reset")
 		switch x := g.Intn(100); {
-		case x < 30:
+		case x < 28:
 			c06GenReport(g)
+		case x < 36:
+			// same signed contents, same signature, different unsigned part (precommits with NTS votes)
+			v := c06GenVote(g)
+			if !v.nilVote {
+				v.t = 1
+			}
+			v.u = 1 + g.Intn(3)
+			w := v
+			w.u = 1 + v.u%3
+			switch g.Intn(4) {
+			case 0:
+				g.Emit("cf v %s v %s", v, w)
+				g.Emit("cf v %s v %s", w, v)
+			case 1:
+				g.Emit("log v %s", v)
+				g.Emit("log v %s", w)
+				g.Emit("log v %s", c06MutVote(g, w))
+			case 2:
+				c06EmitReport(g, c06Item{kind: "v", v: v}, c06Item{kind: "v", v: w})
+			default:
+				x := v
+				x.ts++
+				g.Emit("log v %s", v)
+				g.Emit("log v %s", w)
+				g.Emit("log v %s", x)
+				g.Emit("cf v %s v %s", w, x)
+			}
 		case x < 55:
 			v := c06GenVote(g)
 			g.Emit("cf v %s v %s", v, c06MutVote(g, v))
@@ -226,11 +269,9 @@ func c06Gen(g *Gen) {
 //	('x' = bytes that do not decode), <hist> = DSContextHistory entries height:ids;...
 func c06GenReport(g *Gen) {
 	var a, b c06Item
-	tag := "v"
 	if g.Intn(3) == 0 {
 		p := c06GenProp(g)
 		a, b = c06Item{kind: "p", p: p}, c06Item{kind: "p", p: c06MutProp(g, p)}
-		tag = "p"
 	} else {
 		v := c06GenVote(g)
 		a, b = c06Item{kind: "v", v: v}, c06Item{kind: "v", v: c06MutVote(g, v)}
@@ -244,6 +285,12 @@ func c06GenReport(g *Gen) {
 			b.p.ps = (b.p.ps + 1) % 3
 		}
 	}
+	c06EmitReport(g, a, b)
+}
+
+// c06EmitReport emits one `rep` op for the evidence pair (a, b), with the envelope variations.
+func c06EmitReport(g *Gen, a, b c06Item) {
+	tag := a.kind
 	items := []string{a.String(), b.String()}
 	ord := "lt"
 	switch g.Intn(30) {
@@ -402,8 +449,17 @@ func c06MakeVote(v c06Vote) *consensus.VoteMessage {
 			codec.MustMarshalToBytes(int32(v.nid)), nil, 0, 0, int64(v.ts))
 	} else {
 		psid := &consensus.PartSetID{Count: uint16(1 + v.ps), Hash: c06Hash("ps", v.ps)}
+		cnt := uint16(0)
+		if v.u > 0 {
+			cnt = 1
+		}
 		m = consensus.VerifSignedVote(c06Wallet(v.s), consensus.VoteType(v.t), int64(v.h), int32(v.r),
-			c06Hash("blk", v.blk), psid, uint32(v.nid), 0, int64(v.ts))
+			c06Hash("blk", v.blk), psid, uint32(v.nid), cnt, int64(v.ts))
+	}
+	if v.u > 0 {
+		// outside the signed payload: the signature made above stays valid
+		consensus.VerifC06SetNTS(m, []module.NTSHashEntryFormat{{NetworkTypeID: 1, NetworkTypeSectionHash: c06Hash("nts", v.u)}},
+			[][]byte{c06Hash("ntsproof", v.u)})
 	}
 	c06VoteCache[v] = m
 	return m
@@ -429,9 +485,20 @@ func c06MakeProp(p c06Prop) *consensus.ProposalMessage {
 // the property, evaluated on the descriptors (independent of the code under test)
 func c06SameNet(a, b int) bool { return a == 0 || b == 0 || a == b }
 
+// signed contents of a vote: everything but the signer and the unsigned part; a block vote's
+// signed app data holds the NTS vote count (1 iff it carries an NTS vote)
+func c06Signed(v c06Vote) c06Vote {
+	v.s = 0
+	if v.nilVote || v.u == 0 {
+		v.u = 0
+	} else {
+		v.u = 1
+	}
+	return v
+}
+
 func c06GenuineVotes(a, b c06Vote) bool {
-	ca, cb := a, b
-	ca.s, cb.s = 0, 0
+	ca, cb := c06Signed(a), c06Signed(b)
 	return a.s == b.s && a.h == b.h && a.r == b.r && a.t == b.t && c06SameNet(a.nid, b.nid) && ca != cb
 }
 
@@ -515,6 +582,11 @@ func c06Judge(o *Oracle, a, b c06Item, got bool, where string) {
 			key = "dsproposal-different-networks-conflict"
 		}
 		o.Check(false, key, "%s: messages of networks %d and %d reported as double sign: %s | %s", where, c06Nids(a), c06Nids(b), a, b)
+		return
+	}
+	if got && a.kind == "v" && b.kind == "v" && c06Signed(a.v) == c06Signed(b.v) && a.v.s == b.v.s {
+		o.Check(false, "c06-conflict-for-identical-signed-contents",
+			"%s: two votes with the same signed payload (and signature) but different unsigned parts (NTS vote bases) count as double sign: %s | %s", where, a, b)
 		return
 	}
 	if got && !want {
